@@ -72,7 +72,19 @@ def worker(mod_json, wseed, nvalues, cfg_kw, spec_name, flags=drv.DEFAULT_FLAGS,
                         tname, ttext, val_repr(replay.get("x"), 600), "\n".join(p[1] for p in problems[:6])), replay)
                 if acc.evaluations % 101 == 1:
                     acc.sample({"type": "%s ::= %s" % (tname, ttext[:300]), "case": val_repr(replay.get("x"), 200)})
-            f = pipeline.run_given(strat, body, nvalues, wseed * 1000 + ti)
+            f = None
+            if hasattr(spec, "boundary_cases") and mod.name.startswith("Cat"):
+                # catalogue types: a deterministic list of boundary values first (every enumeration item, every
+                # alternative, every OPTIONAL component alone, range end points), then the random draws
+                for x in spec.boundary_cases(mod, t):
+                    acc.extra["catalogue_boundary_cases"] += 1
+                    try:
+                        body(x)
+                    except Fail as e:
+                        f = e
+                        break
+            if f is None:
+                f = pipeline.run_given(strat, body, nvalues, wseed * 1000 + ti)
             if f is not None:
                 if f.key == "flaky":
                     acc.notes.append(f.summary[:500])
